@@ -203,6 +203,53 @@ def _explain(role, got):
     return "`%s` is %s; by definition it is %s" % (role, show(got), show(want))
 
 
+def _positional_flag(cfg, nxt, call, a_conts, contsvar, idx_v, seq_e, seq_at, childiter_call, res, p):
+    """True: the tuple is extended by `idx != len(S) - 1` / `idx < len(S) - 1` with S the iterated sequence; a message: S is
+    something else (the raw children); None: not followed"""
+    from .common import reaching_def_nodes
+    if not (isinstance(a_conts, ast.BinOp) and isinstance(a_conts.op, ast.Add) and isinstance(a_conts.left, ast.Name) and a_conts.left.id == contsvar
+            and isinstance(a_conts.right, ast.Tuple) and len(a_conts.right.elts) == 1):
+        return None
+    el = a_conts.right.elts[0]
+    if not (isinstance(el, ast.Compare) and len(el.ops) == 1):
+        return None
+    l, r, op = el.left, el.comparators[0], el.ops[0]
+    if isinstance(r, ast.Name) and r.id == idx_v:
+        l, r = r, l
+        op = {ast.Lt: ast.Gt, ast.Gt: ast.Lt}.get(type(op), type(op))()
+    if not (isinstance(l, ast.Name) and l.id == idx_v and isinstance(op, (ast.NotEq, ast.Lt))):
+        if isinstance(l, ast.Name) and l.id == idx_v and isinstance(op, (ast.Eq, ast.GtE)):
+            return "the position tuple is extended by `%s`, which is true for the LAST child: specified is true exactly when the child has a following sibling" % norm(el)
+        return None
+    hs = cfg_nodes_containing(cfg, call)
+    bound, at_b = res(r, hs[0] if hs else None)
+    # len(X) - 1, or helper(X) whose every return is `len(<param>) - 1` (None for unsized)
+    x = None
+    if isinstance(bound, ast.BinOp) and isinstance(bound.op, ast.Sub) and isinstance(bound.right, ast.Constant) and bound.right.value == 1 \
+            and isinstance(bound.left, ast.Call) and norm(bound.left.func) == "len" and len(bound.left.args) == 1:
+        x = bound.left.args[0]
+    elif isinstance(bound, ast.Call) and isinstance(bound.func, ast.Name) and len(bound.args) == 1:
+        r_ = p.resolve_name(nxt.module, bound.func.id)
+        if r_ is not None and r_[0] == "func":
+            h = r_[1]
+            prm = h.posparams[0] if h.posparams else None
+            rets = [q for q in walk_own(h.node) if isinstance(q, ast.Return) and q.value is not None]
+            vals = [norm(q.value) for q in rets]
+            if prm and vals and all(v in ("len(%s) - 1" % prm, "None") for v in vals) and "len(%s) - 1" % prm in vals:
+                x = bound.args[0]
+    if x is None:
+        return None
+    # X must denote the iterated sequence: the same expression resolving to the childiter call, evaluated where the bound is
+    xv, _ = res(x, at_b)
+    if xv is childiter_call or (isinstance(xv, ast.Call) and norm(xv) == norm(childiter_call) and isinstance(x, ast.Name) and isinstance(seq_e, ast.Name)
+                                and x.id == seq_e.id and reaching_def_nodes(at_b, x.id) == reaching_def_nodes(seq_at, seq_e.id)):
+        return True
+    if isinstance(xv, ast.Attribute) and xv.attr == "children":
+        return ("the last child is recognised by comparing the index with len(`%s`) - 1, the node's own children, not with the length of what "
+                "childiter returned: when childiter drops (or adds) children the wrong child - or none - is drawn as the last one" % norm(x))
+    return None
+
+
 def run(ctx):
     p = ctx.p
     typer = typer_for(ctx)
@@ -262,6 +309,7 @@ def run(ctx):
     # children source and order
     loops = [x for x in walk_own(nxt.node) if isinstance(x, ast.For) and any(c is z for c in rec_calls for s_ in x.body for z in ast.walk(s_))]
     child_var = last_var = None
+    positional = {}
     for lp in loops:
         src = lp.iter
         hs = cfg_nodes_containing(cfg, src)
@@ -287,6 +335,24 @@ def run(ctx):
         if ok and isinstance(lp.target, ast.Tuple) and len(lp.target.elts) == 2 and all(isinstance(x, ast.Name) for x in lp.target.elts):
             child_var, last_var = lp.target.elts[0].id, lp.target.elts[1].id
             ctx.inst("V1", nxt, lp.iter, "children walked as _is_last(self.childiter(node.children))")
+        elif isinstance(src, ast.Call) and isinstance(src.func, ast.Name) and src.func.id == "enumerate" and len(src.args) == 1 \
+                and isinstance(lp.target, ast.Tuple) and len(lp.target.elts) == 2 and all(isinstance(x, ast.Name) for x in lp.target.elts):
+            # the last child recognised by position: `for i, child in enumerate(S)` with S = self.childiter(node.children) and the
+            # flag `i != len(S) - 1` - S has to be the very sequence that is iterated (what childiter returned), see below
+            inner, at2 = res(src.args[0], at1)
+            okp = False
+            if isinstance(inner, ast.Call) and norm(inner.func) == "%s.childiter" % selfn and len(inner.args) == 1:
+                kids, _ = res(inner.args[0], at2)
+                okp = isinstance(kids, ast.Attribute) and kids.attr == "children" and norm(kids.value) == nodevar
+            if okp:
+                positional[id(lp)] = (lp.target.elts[0].id, lp.target.elts[1].id, src.args[0], at1, inner)
+                ctx.inst("V1", nxt, lp.iter, "children walked as enumerate(self.childiter(node.children))")
+            else:
+                ctx.viol("V1", nxt, lp.iter, "the children are not walked in the order of self.childiter(node.children), applied once: `%s`" % norm(src)[:80],
+                         construct="__next: children source")
+        elif isinstance(src, ast.Call) and isinstance(src.func, ast.Name) and src.func.id in ("zip", "range"):
+            undecided.append("the children are walked by position (`%s`): how the last one is recognised is not followed" % norm(src)[:60])
+            child_var = None
         else:
             ctx.viol("V1", nxt, lp.iter, "the children are not walked as the (child, is_last) pairs of self.childiter(node.children), applied "
                      "once, in that order: `%s`" % norm(src)[:80], construct="__next: children source")
@@ -302,6 +368,21 @@ def run(ctx):
         for k in c.keywords:
             b[k.arg] = k.value
         a_node, a_conts = b.get(nodevar), b.get(contsvar)
+        ploop = next((lp_ for lp_ in loops if id(lp_) in positional and any(z is c for s_ in lp_.body for z in ast.walk(s_))), None)
+        if ploop is not None:
+            idx_v, ch_v, seq_e, seq_at, childiter_call = positional[id(ploop)]
+            if isinstance(a_node, ast.Name) and a_node.id == ch_v:
+                ctx.inst("V1", nxt, c, "recursion on the child")
+            else:
+                ctx.viol("V1", nxt, c, "the recursion renders `%s`, not the child taken from the children" % (norm(a_node) if a_node is not None else "?"))
+            verdict = _positional_flag(cfg, nxt, c, a_conts, contsvar, idx_v, seq_e, seq_at, childiter_call, res, p)
+            if verdict is True:
+                ctx.inst("V1", nxt, a_conts, "position tuple extended by `index != len(<the iterated children>) - 1`")
+            elif verdict is None:
+                undecided.append("how `%s` marks the last child by position is not followed" % (norm(a_conts)[:60] if a_conts is not None else "?"))
+            else:
+                ctx.viol("V1", nxt, a_conts, verdict, construct="__next: positional last-child flag")
+            continue
         if child_var is not None:
             if isinstance(a_node, ast.Name) and a_node.id == child_var:
                 ctx.inst("V1", nxt, c, "recursion on the child")
@@ -318,6 +399,8 @@ def run(ctx):
                 if not alts:
                     ctx.viol("V1", nxt, c, "the position tuple passed down is `%s`, not the node's own tuple extended by one element for the child" % (
                         norm(a_conts) if a_conts is not None else "?"), construct="__next: continues argument")
+                elif bad and isinstance(bad[0][0], str) and bad[0][0] not in ("islast", "notlast"):
+                    undecided.append("the position tuple is extended by `%s`: not one of the look-ahead flags, not followed" % bad[0][0])
                 elif bad:
                     el, cond = bad[0]
                     ctx.viol("V1", nxt, a_conts, "the position tuple is extended by %s%s; specified: true exactly when the child has a following "
